@@ -20,7 +20,7 @@ RULE = ('cases = (curve, knee set K, ordered expected set E, tolerance / strateg
         'point is matched and at least one is not, or |K| != |E| (the strategies select different sides)')
 ASSUMPTIONS = ['nearest-neighbour ties may be broken either way (every choice explored by the reference)',
                'tolerance comparison uses exact rational distances; the alphabet makes them exactly representable']
-BOUNDS = {'quick': {'curves': 'n=3: y in {0,1,2}, gaps {1,2}; n=4: y{0,1,2} unit gaps and y{0,1} gaps{1,2}; n=5: y{0,1} unit gaps (|E|<=2), y{0,1,2} unit gaps (|E|=1)', 'E': 'ordered, size<=2', 't': '{0,1/4,1/2}'},
+BOUNDS = {'quick': {'curves': 'n=3: y in {0,1,2}, gaps {1,2}; n=4: y{0,1,2} unit gaps and y{0,1} gaps{1,2}; n=5: y{0,1} unit gaps (|E|<=2), y{0,1,2} unit gaps (|E|=1)', 'E': 'ordered, size<=2', 't': '{0,1/4,1/2}', 'large inputs': 'n=16,20 with (|K|,|E|) in {(8,8),(10,8),(4,16),(16,4)}: perfect detection perturbed in <=2 positions (bounded deviation), t in {0.02,0.1}'},
           'thorough': {'curves': 'n=3,4: y{0,1,2} gaps{1,2} (|E|<=3); n=5: y{0,1,2} unit gaps (|E|<=3), y{0,1} gaps{1,2} (|E|<=2); n=6: y{0,1} unit gaps (|E|<=2)', 'E': 'ordered', 't': '{0,1/4,1/2,1}'}}
 TECHNIQUE = 'bounded-exhaustive enumeration of curves x knee sets x ordered expected sets on the real scoring functions against a reference matcher exploring all tie choices'
 LEVEL_TEXT = ('Model checking: every knee set and every small ordered expected set on every small curve; confusion-matrix identities, greedy one-to-one TP, '
@@ -42,7 +42,13 @@ def units(tier, seed):
         plan = [('E012', 3, 1, 2), ('E012U', 4, 16, 2), ('E01', 4, 16, 2), ('E01U', 5, 32, 2), ('E012U', 5, 48, 1)]
     else:
         plan = [('E012', 3, 1, 3), ('E012', 4, 128, 3), ('E01', 5, 128, 2), ('E012U', 5, 243, 3), ('E01U', 6, 64, 2)]
-    return [(prof, n, k, K, emax, xs0, tier) for prof, n, K, emax in plan for k in range(K)]
+    u = [(prof, n, k, K, emax, xs0, tier) for prof, n, K, emax in plan for k in range(K)]
+    # larger inputs, explored by bounded deviation from perfect detection (size-dependent code paths)
+    big = [(16, 8, 8), (20, 10, 8), (20, 4, 16), (20, 16, 4)] if tier == 'quick' else [(16, 8, 8), (20, 10, 8), (20, 8, 10), (20, 4, 16), (20, 16, 4), (24, 12, 12), (32, 16, 16)]
+    for n, nk, ne in big:
+        for k in range(16):
+            u.append(('large', n, nk, ne, k, 16, tier))
+    return u
 
 
 def tp_set(kx, E, dx, t):
@@ -186,7 +192,62 @@ def expected_lattice(xs):
     return [(x, y) for x in ex for y in (0, 1)]
 
 
+def large_cases(n, nk, ne):
+    """(xs, ys, K, E) with E = perfect detection perturbed in at most two positions."""
+    for xs in ([float(i) for i in range(n)], [float(i + (i // 2)) for i in range(n)]):
+        ys = [float((i * 7) % 5) for i in range(n)]
+        step = max(1, n // nk)
+        for start in (0, 1):
+            K = [start + step * j for j in range(nk) if start + step * j < n]
+            if len(K) < nk:
+                continue
+            kp = [(xs[k], ys[k]) for k in K]
+            others = [(xs[i], ys[i]) for i in range(n) if i not in K]
+            base = (kp + others)[:ne] if ne > nk else kp[:ne]
+            lat1 = [(x + d, 0.0) for x in xs for d in (0.0, 0.5)]
+            lat2 = [(x + 0.5, 0.0) for x in xs]
+            yield xs, ys, K, list(base)
+            for j in range(ne):
+                for p in lat1:
+                    E = list(base)
+                    E[j] = p
+                    yield xs, ys, K, E
+            if ne <= 10:
+                for j1 in range(ne):
+                    for j2 in range(j1 + 1, ne):
+                        for p1 in lat2:
+                            for p2 in lat2[::2]:
+                                E = list(base)
+                                E[j1], E[j2] = p1, p2
+                                yield xs, ys, K, E
+
+
+def run_large(unit, res):
+    _, n, nk, ne, k, K_, tier = unit
+    ts = (0.02, 0.1)
+    for ci, (xs, ys, K, E) in enumerate(large_cases(n, nk, ne)):
+        if ci % K_ != k:
+            continue
+        if len(set(E)) != len(E):
+            continue
+        info, fs = check_case(xs, ys, K, tuple(E), ts)
+        ncalls = len(ts) * 4 + 16
+        res.count('evaluations', ncalls)
+        res.count('states')
+        res.count('transitions', ne * len(ts) + 4 * max(nk, ne))
+        res.count('large_cases')
+        for f in fs:
+            res.fail(f)
+        if not fs:
+            res.count('traces', ncalls)
+        if info['matched'] and info['unmatched']:
+            res.count('nontrivial')
+    res.notes['large_n_max'] = n
+
+
 def run_unit(unit, res):
+    if unit[0] == 'large':
+        return run_large(unit, res)
     prof, n, k, K, emax, xs0, tier = unit
     P = curves.get(prof)
     ts = (0.0, 0.25, 0.5) if tier == 'quick' else (0.0, 0.25, 0.5, 1.0)
